@@ -28,7 +28,7 @@ sys.setrecursionlimit(1000)
 # ------------------------------------------------------------------------------------------ case language
 # struct   = {"charset": str|None, "items": [["I", href, media] | ["S", sel, payload] | ["C", text] | ["N", uri]]}
 # behaviour= ["none"] | ["empty"] | ["three"] | ["nonenone"] | ["httpnone", http] | ["text", http, struct]
-#          | ["bytes", http, struct, codec] | ["raise", excname]
+#          | ["bytes", http, struct, codec] | ["raise", excname] | ["mistyped", kind]   (see MISTYPED)
 # case     = {"top": struct, "href": str|None, "override": str|None, "table": {url: [behaviour, ...]}}
 #            (the k-th call of a URL gets the k-th behaviour, the last one repeats; unknown URL -> None)
 DOCUMENTED_RAISE = ("OSError", "IOError", "ValueError")
@@ -121,6 +121,10 @@ def content_of(b):
     return None
 
 
+MISTYPED = {"int": 5, "intcontent": (None, 123), "byteslabel": (b"utf-8", b"a{}"), "intlabel": (123, "a{}"),
+            "listcontent": (None, ["a"]), "str": "ab", "true": True}
+
+
 def py_result(b):
     k = b[0]
     if k == "none":
@@ -135,6 +139,8 @@ def py_result(b):
         return (b[1], None)
     if k in ("text", "bytes"):
         return (b[1], content_of(b))
+    if k == "mistyped":
+        return MISTYPED[b[1]]
     raise AssertionError(k)
 
 
@@ -298,7 +304,7 @@ def model_line(case, fuel=8):
             k = b[0]
             if k in ("none", "empty"):
                 outs.append("(0)")
-            elif k == "three":
+            elif k in ("three", "mistyped"):
                 outs.append("(1)")
             elif k in ("nonenone", "httpnone"):
                 outs.append("(2)")
@@ -671,7 +677,9 @@ BEHAVIOURS = [
     ["text", "bogus", None], ["bytes", "bogus", None, "utf-8"], ["bytes", "iso-8859-1", None, "latin-1"],
 ]
 EXTRA = [["raise", "TypeError"], ["raise", "LookupError"], ["raise", "UnicodeDecodeError"], ["raise", "KeyError"],
-         ["raise", "AttributeError"], ["raise", "RuntimeError"]]
+         ["raise", "AttributeError"], ["raise", "RuntimeError"],
+         ["mistyped", "int"], ["mistyped", "intcontent"], ["mistyped", "byteslabel"], ["mistyped", "intlabel"],
+         ["mistyped", "listcontent"], ["mistyped", "str"], ["mistyped", "true"]]
 HREFS = ["a.css", "sub/b.css", "../c.css", "./d.css", "http://o/e.css", "/root.css", "//o2/f.css", "sub/../g.css",
          "../../../x.css", "q.css?v=1", "sub/", "..", "sub//h.css", "https://h/d/s.css", "data:text/css,a", "?only=q"]
 BAD_HREFS = ["http://[bad/x.css", "//[x"]
